@@ -2119,21 +2119,26 @@ func (f *fragment) bulkImportMutex(rowIDs, columnIDs []uint64) error {
 	rowSet := make(map[uint64]struct{})
 	// we have to maintain which columns are getting bits set as a map so that
 	// we don't end up setting multiple bits in the same column if a column is
-	// repeated within the import.
+	// repeated within the import. The last row given for a column wins, as if
+	// the bits had been set one after the other.
 	colSet := make(map[uint64]uint64)
-
-	// Since each imported bit will at most set one bit and clear one bit, we
-	// can reuse the rowIDs and columnIDs slices as the set and clear slice
-	// arguments to importPositions. The set positions we'll get from the
-	// colSet, but we maintain clearIdx as we loop through row and col ids so
-	// that we know how many bits we need to clear and how far through columnIDs
-	// we are.
-	clearIdx := 0
 	for i := range rowIDs {
-		rowID, columnID := rowIDs[i], columnIDs[i]
-		if existingRowID, found, err := f.mutexVector.Get(columnID); err != nil {
+		colSet[columnIDs[i]] = rowIDs[i]
+	}
+
+	// Since each imported column will at most set one bit and clear one bit,
+	// we can reuse the rowIDs and columnIDs slices as the set and clear slice
+	// arguments to importPositions (colSet holds everything we still need
+	// from them). setIdx and clearIdx are how many positions we need to set
+	// and clear.
+	setIdx, clearIdx := 0, 0
+	for columnID, rowID := range colSet {
+		existingRowID, found, err := f.mutexVector.Get(columnID)
+		if err != nil {
 			return errors.Wrap(err, "getting mutex vector data")
-		} else if found && existingRowID != rowID {
+		} else if found && existingRowID == rowID {
+			continue
+		} else if found {
 			// Determine the position of the bit in the storage.
 			clearPos, err := f.pos(existingRowID, columnID)
 			if err != nil {
@@ -2143,24 +2148,16 @@ func (f *fragment) bulkImportMutex(rowIDs, columnIDs []uint64) error {
 			clearIdx++
 
 			rowSet[existingRowID] = struct{}{}
-		} else if found && existingRowID == rowID {
-			continue
 		}
 		pos, err := f.pos(rowID, columnID)
 		if err != nil {
 			return err
 		}
-		colSet[columnID] = pos
+		rowIDs[setIdx] = pos
+		setIdx++
 		rowSet[rowID] = struct{}{}
 	}
-
-	// re-use rowIDs by populating positions to set from colSet.
-	i := 0
-	for _, pos := range colSet {
-		rowIDs[i] = pos
-		i++
-	}
-	toSet := rowIDs[:i]
+	toSet := rowIDs[:setIdx]
 	toClear := columnIDs[:clearIdx]
 
 	return errors.Wrap(f.importPositions(toSet, toClear, rowSet), "importing positions")
